@@ -78,23 +78,32 @@ def register(db):
     )
     # ---- one processing task raced against the cancel event
     db.contract(fn="spawn:_Processor.process", assumed=True, modifies=["ghost.proc_disposed", "ghost.proc_done"],
-                returns="Task", ensures={"fresh": "not ghost.proc_disposed and not ghost.proc_done"},
+                returns="ProcTask", ensures={"fresh": "not ghost.proc_disposed and not ghost.proc_done"},
                 note="process() runs as its own task; ghost.proc_disposed: it has applied its (single, see C02) "
                      "disposition; ghost.proc_done: it has completed")
+    db.define("task_done(t)", "ghost.consume_done if isinstance(t, ConsumeTask) else"
+                               " (ghost.proc_done if isinstance(t, ProcTask) else t.event._flag)")
     db.contract(fn="asyncio.wait", assumed=True, is_async=True, params=["aws", "return_when", "timeout"],
                 defaults={"return_when": "'ALL_COMPLETED'", "timeout": "None"}, returns="tuple[opaque, opaque]",
-                note="suspends; nothing is assumed about which awaitable completed")
-    db.contract(fn="Task.cancel", assumed=True, params=["self"], returns="bool",
+                ensures={"first_completed": "implies(return_when == 'FIRST_COMPLETED' and timeout is None,"
+                                            " exists_in(t, aws, task_done(t)))"},
+                note="asyncio.wait(FIRST_COMPLETED) returns once at least one of the awaitables is done")
+    db.contract(fn="ProcTask.cancel", assumed=True, params=["self"], returns="bool",
                 modifies=["ghost.proc_cancelled"], ensures={"cancelled_unless_done": "ghost.proc_cancelled == (not ghost.proc_done)"},
                 note="requests cancellation: a task that is not done receives CancelledError at its current await and "
                      "makes no further progress; a task that is already done is unaffected")
-    db.contract(fn="Task.done", assumed=True, params=["self"], returns="bool", ensures={"done": "result == ghost.proc_done"})
-    db.contract(fn="Task.__await__", assumed=True, is_async=True, params=["self"],
+    db.contract(fn="ProcTask.done", assumed=True, params=["self"], returns="bool", ensures={"done": "result == ghost.proc_done"})
+    db.contract(fn="ProcTask.__await__", assumed=True, is_async=True, params=["self"],
                 ensures={"completed": "ghost.proc_done"},
                 raises=[Raises("Exception", mode="may", anysub=True, ensures={"completed": "ghost.proc_done"})],
                 note="awaiting the processing task: returns (or re-raises its exception) once it is done")
-    db.contract(fn=R + "cancel_event_task", assumed=True, returns="Task", note="lazily created waiter task (not verified)")
-    db.contract(fn=R + "stop_consume_event_task", assumed=True, returns="Task", note="lazily created waiter task")
+    db.shape("ProcTask", {}, bases=["Task"])
+    db.shape("ConsumeTask", {}, bases=["Task"])
+    db.shape("EventTask", {"event": "Event"}, bases=["Task"])
+    db.contract(fn=R + "cancel_event_task", assumed=True, returns="EventTask", result_fields={"event": "self.cancel_event"},
+                note="lazily created task waiting on cancel_event: done iff the event is set (not verified: hasattr/create_task)")
+    db.contract(fn=R + "stop_consume_event_task", assumed=True, returns="EventTask",
+                result_fields={"event": "self.stop_consume_event"}, note="lazily created task waiting on stop_consume_event")
     db.define("n_reject(tr)", "sum([1 for e in tr if e[0] == 'reject'])")
     db.contract(
         fn=R + "_process_with_event", serves=["C02", "C03"],
@@ -116,6 +125,56 @@ def register(db):
         raises=[Raises("Exception", mode="may", anysub=True, ensures={"no_reject": "len(trace) == 0"},
                        modifies=["ghost.proc_disposed", "ghost.proc_done", "ghost.proc_cancelled", "self.cancel_event._flag"])],
         modifies=["ghost.proc_disposed", "ghost.proc_done", "ghost.proc_cancelled", "self.cancel_event._flag"], trace_exact=False,
+    )
+
+    # ---- one queue: run the consumer loop until the stop event, report a failed consumer
+    db.define("task_states()", "implies(ghost.consume_failed, ghost.consume_done) and implies(ghost.consume_cancelled, ghost.consume_done)"
+                               " and not (ghost.consume_failed and ghost.consume_cancelled)")
+    db.contract(fn="spawn:_Runner._run_consumer", assumed=True, returns="ConsumeTask",
+                modifies=["ghost.consume_done", "ghost.consume_failed", "ghost.consume_cancelled", "ghost.cancel_requested"],
+                ensures={"fresh": "not ghost.consume_done and not ghost.consume_failed and not ghost.consume_cancelled"
+                                  " and not ghost.cancel_requested"},
+                note="the consumer loop runs as its own task; ghost.consume_failed: it ended with an exception")
+    db.contract(fn="ConsumeTask.done", assumed=True, params=["self"], returns="bool", ensures={"r": "result == ghost.consume_done"})
+    db.contract(fn="ConsumeTask.cancelled", assumed=True, params=["self"], returns="bool",
+                ensures={"r": "result == ghost.consume_cancelled"})
+    db.contract(fn="ConsumeTask.exception", assumed=True, params=["self"], returns="Optional[opaque]",
+                requires=["ghost.consume_done", "not ghost.consume_cancelled"],   # else InvalidStateError / CancelledError
+                ensures={"r": "(result is not None) == ghost.consume_failed"})
+    db.contract(fn="ConsumeTask.cancel", assumed=True, params=["self"], returns="bool", modifies=["ghost.cancel_requested"],
+                ensures={"r": "ghost.cancel_requested"})
+    db.contract(fn="MessageBrokerT.get_consumer", assumed=True,
+                params=["self", "queue_name", "topics", "max_unacked_messages", "category"],
+                defaults={"topics": "None", "max_unacked_messages": "None", "category": "MessageCategory.NORMAL"},
+                returns="ConsumerT", effects=[("ctl", "('get_consumer', queue_name, topics)")])
+    db.contract(fn="ConsumerT.start", assumed=True, is_async=True, params=["self"], effects=[("ctl", "('start',)")])
+    db.contract(
+        fn=R + "run_one_queue", serves=["C10", "C20", "C11"], binds={"topics": "opaque", "actors": "map[str, ActorData]"},
+        ghost_init={"ctl": "events", "consume_done": "bool", "consume_failed": "bool", "consume_cancelled": "bool",
+                    "cancel_requested": "bool"},
+        shared=["ghost.consume_done", "ghost.consume_failed", "ghost.consume_cancelled", "self.stop_consume_event._flag"],
+        rely=["implies(old(ghost.consume_done), ghost.consume_done)", "implies(ghost.consume_failed, ghost.consume_done)",
+              "implies(ghost.consume_cancelled, ghost.consume_done)", "not (ghost.consume_failed and ghost.consume_cancelled)",
+              "implies(old(ghost.consume_failed), ghost.consume_failed)",
+              "implies(old(ghost.consume_done), ghost.consume_failed == old(ghost.consume_failed))",
+              "implies(old(self.stop_consume_event._flag), self.stop_consume_event._flag)"],
+        requires=["task_states()"],
+        yield_inv={"task_states": "task_states()"},
+        ensures={
+            "consumer_for_this_queue": "ctl[0] == ('get_consumer', queue_name, topics)",
+            "started_then_paused": "ctl[1] == ('start',) and ctl[len(ctl) - 1] == ('pause',)",
+            "health_never_recovers": "implies(self._health_check_server is not None,"
+                                     " self._health_check_server._health_status == HealthCheckStatus.UNHEALTHY"
+                                     " or self._health_check_server._health_status == old(self._health_check_server._health_status))",
+            "consumption_ended_or_cancelled": "ghost.cancel_requested or ghost.consume_done",
+            "unhealthy_only_for_failed_consumer": "implies(self._health_check_server is not None and"
+                                                  " self._health_check_server._health_status != old(self._health_check_server._health_status),"
+                                                  " ghost.consume_failed)",
+        },
+        raises=[],
+        modifies=["self._health_check_server._health_status", "self.stop_consume_event._flag", "ghost.consume_done",
+                  "ghost.consume_failed", "ghost.consume_cancelled", "ghost.cancel_requested"],
+        trace_exact=False,
     )
 
     db.prop_meta("C09", not_decided=[
